@@ -15,6 +15,8 @@ func init() {
 	register(&Spec{
 		ID: "C09",
 		Explanation: "Decides: R1 fold direction and argument positions of ApplyMiddleware (ascending over the list, h = f.Middleware(h, method, pattern, router), the fold result is returned); R2 concatenation by locality rank — wherever a middleware list is built for Tree.Add / Router.Handle / Router.Prefix / Router.Resource its operands are in non-decreasing rank call argument < Prefix/Resource list < Router list, and Use appends the new ones after the old; R3 retroactive application is exhaustive over the handler-carrying fields of Tree and node (404, TRACE under hasTrace only, every entry of every handler map, every child unconditionally), Router.Use does both the append and the retroactive call on every path and passes only the new middlewares, Group.Use forwards to every router, wraps its own 404 and appends, Group.Add applies the group's list once; R4 argument agreement at every wrap site: a handler stored under key K was wrapped with method K, with the node's full pattern and the tree's name; 404 with (\"\", \"\"), TRACE with (TRACE, \"\"), the group's 404 with (\"\", \"\", \"\"). " +
+			"R5 the automatic OPTIONS / 405 entries are installed only behind the not-found edge of their key. " +
+			"R6 (= C19.R1) the facade shorthands forward to the canonical registration. " +
 			"Not decided separately: the order for every interleaving of Use/Prefix/Handle — it is the composition of R1–R4 (lists are only ever concatenated in rank order and folded left to right).",
 		Assumptions: commonAssumptions,
 		Run: func(c *Ctx) {
@@ -24,6 +26,8 @@ func init() {
 			ruleRetroactive(c, "R3")
 			ruleWrapSites(c, "R4")
 			ruleNoWastedWrap(c, "R4b")
+			ruleAutoHandlersBuiltOnce(c, "R5")
+			ruleForwarders(c, "R6")
 			ruleExhaustiveWalks(c, "R3w", []*ssa.Function{c.P.MustFunc("tree.(*Tree).ApplyMiddleware")}, "the retroactive application visits every node")
 		},
 	})
